@@ -37,6 +37,7 @@ cdef class TaskScheduler(object):
     cdef reset(self)
 
     cpdef int wait_for(self, async_task.AsyncTask task) except -1
+    @cython.locals(abandoned=async_task.AsyncTask)
     cdef int _execute(self, async_task.AsyncTask root_task) except -1
 
     cdef _schedule_batch(self, batching.BatchBase batch)
